@@ -271,7 +271,15 @@ func runOne(sp solverSpec, file string, timeoutS int, seed int, ctx context.Cont
 	_ = cmd.Run()
 	secs := time.Since(t0).Seconds()
 	o := out.String()
-	first := strings.TrimSpace(strings.SplitN(o, "\n", 2)[0])
+	first := ""
+	for _, l := range strings.Split(o, "\n") {
+		l = strings.TrimSpace(l)
+		if l == "" || strings.HasPrefix(l, "WARNING") || strings.HasPrefix(l, "(warning") {
+			continue
+		}
+		first = l
+		break
+	}
 	switch first {
 	case "unsat", "sat", "unknown":
 		return first, o, secs
@@ -291,35 +299,42 @@ func runOne(sp solverSpec, file string, timeoutS int, seed int, ctx context.Cont
 // goals in milliseconds); stage 2: all three solvers race with the full budget. In `agree` mode
 // (thorough tier) all solvers run to completion and a sat/unsat disagreement is reported.
 func Solve(file string, timeoutS int, seed int, agree bool) SolverResult {
+	return SolveVariants([]string{file}, timeoutS, seed, agree)
+}
+
+// SolveVariants races every solver on every variant of the query. files[0] is the full query: only its
+// sat/unsat answers are definitive; the other variants have fewer hypotheses, so only `unsat` counts.
+func SolveVariants(files []string, timeoutS int, seed int, agree bool) SolverResult {
+	file := files[0]
 	res := SolverResult{All: map[string]string{}}
 	t0 := time.Now()
-	if !agree {
-		short := 3
-		if timeoutS < short {
-			short = timeoutS
-		}
-		st, out, _ := runOne(solvers[0], file, short, seed, context.Background())
-		res.All[solvers[0].name] = st
-		if st == "unsat" || st == "sat" {
-			res.Status, res.Solver, res.Output, res.Secs = st, solvers[0].name, out, time.Since(t0).Seconds()
-			return res
-		}
-	}
 	ctx, cancel := context.WithCancel(context.Background())
 	defer cancel()
 	type r struct {
 		name, st, out string
 	}
-	ch := make(chan r, len(solvers))
-	for _, sp := range solvers {
-		sp := sp
-		go func() {
-			st, out, _ := runOne(sp, file, timeoutS, seed, ctx)
-			ch <- r{sp.name, st, out}
-		}()
+	n := 0
+	ch := make(chan r, len(solvers)*len(files))
+	for vi, f := range files {
+		for _, sp := range solvers {
+			sp, f, vi := sp, f, vi
+			n++
+			go func() {
+				st, out, _ := runOne(sp, f, timeoutS, seed, ctx)
+				name := sp.name
+				if vi > 0 {
+					name += "/sliced"
+					if st != "unsat" {
+						st = "unknown" // fewer hypotheses: only a proof means something
+					}
+				}
+				ch <- r{name, st, out}
+			}()
+		}
 	}
+	_ = file
 	best := r{st: "unknown"}
-	for i := 0; i < len(solvers); i++ {
+	for i := 0; i < n; i++ {
 		x := <-ch
 		if prev, ok := res.All[x.name]; !ok || prev == "timeout" || prev == "unknown" {
 			res.All[x.name] = x.st
